@@ -32,6 +32,25 @@ SUGAR = {
     pr(__ealts2(add(x, __lit1), (add' x, __lit1), x -> add(__lit1), (x) -> add(__lit1)))
 end
 ''',
+"call_forms_around_a_function_literal_in_a_blob_field": HEAD + '''Inner :: blob {
+    n: int,
+    get: fn -> int,
+}
+Outer :: blob {
+    n: int,
+    make: fn -> int,
+}
+wrap :: fn f: fn -> int -> fn -> int do
+    ret f
+end
+start :: fn do
+    o := Outer { n: 1, make: fn -> int do
+        i := Inner { n: 2, get: __ealts1(wrap(fn -> int do ret self.n end), (wrap' fn -> int do ret self.n end), (fn -> int do ret self.n end) -> wrap(), wrap((fn -> int do ret self.n end))) }
+        ret i.get()
+    end }
+    pr(o.make())
+end
+''',
 "nested_calls": HEAD + '''start :: fn do
     z := __ealts1(add(add(1, 2), inc(3)), (add' add(1, 2), inc(3)), add(1, 2) -> add(inc(3)), (add' 1, 2) -> add(inc' 3), add(1, 2) -> add(3 -> inc()))
     w := __ealts2(inc(inc(z)), z -> inc() -> inc(), inc(z) -> inc(), (inc' inc(z)), (inc' (inc' z)))
